@@ -105,6 +105,10 @@ What the misses had in common, and the general lesson applied across checks:
   four segments; network segments in long-form DIDs; payloads that are JSON text but not canonical; points with a zero
   coordinate; signatures with one octet more; pointers in URI-fragment form; a top-level `controller`; key material under the
   names other suites use; a window length of zero in the shared applier; and a lock-up detector around every stress run;
+* *an error that used to abort is swallowed* (round 13: leniency commits): the inputs that make exactly one sub-step fail are now
+  generated on purpose - optional members of the wrong JSON type, patch-list entries without members, anchor-origin texts no URI
+  parser takes, value members under names that merely resemble the right one, padded coordinate texts, relationship entries
+  with the relationship left out;
 * *a hang ended as "inconclusive"* (C20 recursive read lock): lock-ups of the registries are detected inside the case with the
   goroutine dump as witness, and a C20 case timeout is a violation.
 
